@@ -77,6 +77,9 @@ class C03(Check):
                         "ops": [{"attr": attr, "seed": [5, 3, 1]}, {"attr": attr, "seed": [0]}], "reload_first": False})
             out.append({"owner": owner, "cls": cname, "geom": {"n": 3, "g": [1, 2, -3, 4, 0, 5]},
                         "ops": [{"attr": attr, "seed": [100]}, {"attr": attr, "seed": [1, 1, 2]}], "reload_first": True})
+            if owner == "datatype":
+                out.append({"owner": owner, "cls": cname, "geom": {"n": 3, "g": [1, 2, -3, 4, 0, 5]}, "fresh_type": True,
+                            "ops": [{"attr": attr, "seed": [3, 1, 4, 1]}], "reload_first": False})
             if attr == "dip" and (owner, cname, "vertical") in set(_pairs()):
                 # coupled attributes assigned one after the other: the second assignment must win
                 for first, second in (("vertical", "dip"), ("dip", "vertical")):
@@ -125,6 +128,13 @@ class C03(Check):
                 res.label(f"build_failed:{cname}:{type(exc).__name__}")
                 return res
             uid = ent.uid if ent is not None else None
+            if program.get("fresh_type") and owner == "datatype":
+                # the data set is given a brand-new data type first; the assignments then go to that type
+                from geoh5py.data import DataType
+
+                ent.entity_type = DataType(ws, primitive_type=ent.entity_type.primitive_type, name="fresh type")
+                target = ent.entity_type
+                res.label("type-attached-after-creation")
 
             def locate(wsp):
                 if owner == "workspace":
@@ -165,6 +175,8 @@ class C03(Check):
                 if value is None:
                     res.label(f"no_domain:{tag}")
                     continue
+                if value is V.NONE:
+                    value, exp = None, None
                 try:
                     before = V.flat(getattr(target, attr))
                 except Exception:
